@@ -157,6 +157,150 @@ def candidate_filtered(fl, tgt):
     return somes >= 1
 
 
+def _root_bool(fl, op):
+    """chase plain copies of a switch discriminant back to the local it reads: (local, negated)"""
+    neg = False
+    n = 0
+    while n < 8:
+        n += 1
+        if op.get("k") not in ("move", "copy") or op["place"]["proj"]:
+            return None, neg
+        l = op["place"]["local"]
+        ds = [d for d in fl.defs().get(l, []) if not fl.is_cleanup(d[0])]
+        if len(ds) == 1 and ds[0][1] != "term":
+            rv = ds[0][2]["rv"]
+            if rv["k"] == "use" and rv["op"].get("k") in ("move", "copy") and not rv["op"]["place"]["proj"]:
+                op = rv["op"]
+                continue
+            if rv["k"] == "unop" and rv.get("op") == "Not" and rv["a"].get("k") in ("move", "copy") and not rv["a"]["place"]["proj"]:
+                op = rv["a"]
+                neg = not neg
+                continue
+        return l, neg
+    return None, neg
+
+
+def candidate_filtered_index(fl, tgt, store_bb):
+    """hand-written arg-min by *index*: the decremented element is `v[unwrap(best).0]`, where every
+    `best = Some((i, ..))` assignment sits in a loop over `v.iter()..enumerate()` whose item is
+    `(i, (&v[i], ..))`, and on every path of the loop body from the item to the assignment either
+    `v[i] > 1` was tested, or a flag was tested with the value opposite to the one that dominates
+    the decrement (one loop serving both directions: `if !lengthen && frames <= 1 { continue }`)"""
+    eb = ExprBuilder(fl)
+    if not (tgt[0] == "idx"):
+        return False
+    vec, ix = tgt[1], tgt[2]
+    cand = None
+    for x in walk(ix):
+        if x[0] == "call" and x[1].endswith("Option::<T>::unwrap") and x[2] and x[2][0][0] == "var" and isinstance(x[2][0][1], int):
+            cand = x[2][0][1]
+        if x[0] == "variant" and x[2] == "Some" and x[1][0] == "var" and isinstance(x[1][1], int):
+            cand = x[1][1]
+    if cand is None:
+        return False
+    # flags that dominate the decrement: (root local, value)
+    site_flags = {}
+    for sb, t, val in fl.guards(store_bb):
+        if t.get("discr_ty") != "bool" or not isinstance(val, int):
+            continue
+        l, neg = _root_bool(fl, t["discr"])
+        if l is not None:
+            site_flags[l] = bool(val) != neg
+    loops = dict(fl.natural_loops())
+    preds = fl.preds()
+    somes = 0
+    work = [(d, 0) for d in fl.defs().get(cand, [])]
+    while work:
+        (dbb, di, item), depth = work.pop()
+        if fl.is_cleanup(dbb) or di == "term":
+            continue
+        rv = item["rv"]
+        if rv["k"] == "aggregate" and rv["kind"].get("variant") == "None":
+            continue
+        if rv["k"] == "use" and rv["op"].get("k") in ("move", "copy") and not rv["op"]["place"]["proj"] and depth < 4:
+            work.extend((d, depth + 1) for d in fl.defs().get(rv["op"]["place"]["local"], []))
+            continue
+        if not (rv["k"] == "aggregate" and rv["kind"].get("variant") == "Some"):
+            return False
+        e = eb.at(dbb, di).rvalue(rv)
+        pay = e[2][0] if e[0] == "agg" and e[2] else None
+        idx = pay[2][0] if pay is not None and pay[0] == "agg" and pay[1] == "tuple" and pay[2] else None
+        # idx = item.0 with item = (next(enumerate(zip(iter(vec), ..) | iter(vec))) as Some).0
+        if idx is None or not (idx[0] == "field" and idx[2] == "0"):
+            return False
+        it = idx[1]
+        if not (it[0] == "field" and it[2] == "0" and it[1][0] == "variant" and it[1][2] == "Some" and it[1][1][0] == "call" and it[1][1][1].endswith("::next")):
+            return False
+        src = it[1][1][2][0]
+        if not (src[0] == "call" and src[1].endswith("Iterator::enumerate")):
+            return False
+        inner = src[2][0]
+        zipped = inner[0] == "call" and inner[1].endswith("Iterator::zip")
+        first = inner[2][0] if zipped else inner
+        while first[0] == "call" and len(first[2]) == 1 and first[1].rsplit("::", 1)[-1] in ("iter", "iter_mut", "into_iter", "deref", "as_slice"):
+            first = first[2][0]
+        if canon(first) != canon(vec):
+            return False
+        elem = ("field", ("field", it, "1"), "0") if zipped else ("field", it, "1")
+        # the innermost loop that contains the assignment
+        inner_loops = sorted(((h, bl) for h, bl in loops.items() if dbb in bl), key=lambda x: len(x[1]))
+        if not inner_loops:
+            return False
+        header, blocks = inner_loops[0]
+        # enumerate acyclic paths header -> dbb inside the loop, collecting boolean switch outcomes
+        ok_all = [True]
+        count = [0]
+
+        def walk_paths(bb, seen, lits):
+            if not ok_all[0] or count[0] > 4000:
+                ok_all[0] = False
+                return
+            if bb == dbb:
+                count[0] += 1
+                good = False
+                for kind, payload in lits:
+                    if kind == "elem>1":
+                        good = True
+                    if kind == "flag" and payload[0] in site_flags and site_flags[payload[0]] != payload[1]:
+                        # the flag is read-only between the two tests: one definition, outside this loop
+                        ds = [d for d in fl.defs().get(payload[0], []) if not fl.is_cleanup(d[0])]
+                        if len(ds) == 1 and ds[0][0] not in blocks:
+                            good = True
+                if not good:
+                    ok_all[0] = False
+                return
+            t = fl.term(bb)
+            for s in fl.succs(bb):
+                if s not in blocks or s in seen or fl.is_cleanup(s) or s == header:
+                    continue
+                nl = lits
+                if t.get("k") == "switch" and t.get("discr_ty") == "bool":
+                    vals = [v for v, tg in t["targets"] if tg == s]
+                    if t.get("otherwise") == s and not vals:
+                        listed = [v for v, tg in t["targets"]]
+                        vals = [1] if listed == [0] else ([0] if listed == [1] else [])
+                    if len(vals) == 1:
+                        val = bool(vals[0])
+                        l, neg = _root_bool(fl, t["discr"])
+                        if l is not None:
+                            nl = nl + [("flag", (l, val != neg))]
+                            ds = [d for d in fl.defs().get(l, []) if not fl.is_cleanup(d[0])]
+                            if len(ds) == 1 and ds[0][1] != "term":
+                                ce = eb.at(ds[0][0], ds[0][1]).rvalue(ds[0][2]["rv"])
+                                holds = val != neg
+                                if ce[0] == "bin" and ce[3][0] == "c" and isinstance(ce[3][1], int) and canon(ce[2]) == canon(elem):
+                                    k = ce[3][1]
+                                    if (ce[1] == "Gt" and holds and k >= 1) or (ce[1] == "Ge" and holds and k >= 2) or \
+                                       (ce[1] == "Le" and not holds and k >= 1) or (ce[1] == "Lt" and not holds and k >= 2):
+                                        nl = nl + [("elem>1", None)]
+                walk_paths(s, seen | {s}, nl)
+        walk_paths(header, {header}, [])
+        if not ok_all[0] or count[0] == 0:
+            return False
+        somes += 1
+    return somes >= 1
+
+
 def run(ctx):
     ctx.rule("C08-R1", "speed-1 law: create() returns estimate_duration(parameters, 0.0) unless speed != 1.0; each element is cast(max(round(mean + rho*vari), 1))")
     ctx.rule("C08-R2", "target length = cast(max(round(sum(speed-1 durations) / speed), 1))")
@@ -530,6 +674,8 @@ def r234(ctx, p, fl):
                                 okf = True
                 if not okf:
                     okf = candidate_filtered(fl, tgt)
+                if not okf:
+                    okf = candidate_filtered_index(fl, tgt, bb)
                 if okf:
                     ctx.ok("C08-R4", "the decrement candidate set is filtered by `duration > 1`", cm.loc_of(st["span"]))
                 else:
